@@ -5,7 +5,8 @@ from .common import grid_check
 
 def run(ctx):
     grid_check(ctx, 'c03', also=('c01', 'c04'),
-               required={'capex-total': 300, 'opex-total': 300, 'wellfield': 300, 'user-component-used': 300},
+               required={'capex-total': 300, 'opex-total': 300, 'wellfield': 300, 'user-component-used': 300,
+                         'plant-includes-end-use-equipment': 15},
                rule='grid walk (see C01) where every cost input is independently user-fixed, scaled by an adjustment factor '
                     'in [0,10] or left to its correlation, totals optionally fixed, ITC/grants/fees/tax relief/redrilling '
                     'on and off, all 17 well-cost correlations; distinct by input content hash; every accepted run is '
